@@ -82,7 +82,7 @@ pub fn decode_program(data: &[u8]) -> Option<(Program, u8)> {
             _ => Op::FixImport,
         });
     }
-    Some((Program { k, ops }, goal))
+    Some((Program { k, ops, spread: data[1] / 51 }, goal))
 }
 
 /// C06 / C07 / C13 (/ C19 without re-materialisations): generated op sequence under all oracles.
@@ -95,7 +95,7 @@ pub fn fz_bddops(data: &[u8]) -> Result<(), String> {
     ok(props::bdd::run_program(&prog, props::bdd::Focus::Function, &mut st))?;
     ok(props::counts::c13_ops_entry(&prog, goal, &mut st))?;
     {
-        let plain: Vec<Op> = prog.ops.iter().filter(|o| !matches!(o, Op::Serde | Op::Rebuild | Op::AdfNodeList | Op::AdfSerde | Op::FixImport)).cloned().collect();
+        let plain: Vec<Op> = prog.ops.iter().filter(|o| !matches!(o, Op::Serde | Op::Rebuild | Op::AdfNodeList | Op::AdfSerde | Op::FixImport | Op::SerdeNoFix)).cloned().collect();
         if !plain.is_empty() {
             let sched = data
                 .iter()
@@ -110,7 +110,7 @@ pub fn fz_bddops(data: &[u8]) -> Result<(), String> {
                 })
                 .collect();
             let case = props::stream::StreamCase {
-                prog: Program { k: prog.k, ops: plain },
+                prog: Program { k: prog.k, ops: plain, spread: prog.spread },
                 chain: data[0] & 0x80 != 0,
                 sched,
             };
